@@ -313,8 +313,11 @@ def main(tier="quick", seed=0):
     one_d = [c for c in cases if c["y"]["ndim"] == 1]
     two_d = [c for c in cases if c["y"]["ndim"] == 2]
     if quick:
-        pick = rng.choice(len(two_d), size=min(len(two_d), 500), replace=False)
-        two_d = [two_d[i] for i in sorted(pick)]
+        # the empty 2-D arrays (0 rows, k columns) are few and a corner of their own: always kept
+        empty_2d = [c for c in two_d if c["y"]["rows"] == 0]
+        rest = [c for c in two_d if c["y"]["rows"] > 0]
+        pick = rng.choice(len(rest), size=min(len(rest), 500), replace=False)
+        two_d = empty_2d + [rest[i] for i in sorted(pick)]
     used = one_d + two_d
     n_cfg = 28 if quick else 48     # a seeded subset of the (up to 86) grid configurations per case
     seeds = rng.integers(0, 2 ** 31, size=len(used)).tolist()
